@@ -8,6 +8,12 @@ Hand-written, core Lean, trusted like `RsSem.lean`.
 namespace RbV.Rs
 open Res
 
+/-- `v.resize(n, x)`: truncate to `n` or fill up with copies of `x` -/
+def resizeV {α : Type} (l : List α) (n : Nat) (x : α) : List α := l.take n ++ List.replicate (n - l.length) x
+
+theorem resizeV_nil {α : Type} (n : Nat) (x : α) : resizeV ([] : List α) n x = List.replicate n x := by
+  simp [resizeV]
+
 /-! ### `vec_map::VecMap<usize>` beyond `get` / `insert` (RsSem.lean): `contains_key`, `*get_mut(k).unwrap() += d`, `values()` -/
 namespace VecMap
 
